@@ -32,7 +32,7 @@ def run(ctx):
         beh = qcommon.merge(ctx, res[cfg], cfg)
         ctx.drive("bind/queryb", "TestC15", beh=beh, env=qcommon.cfg_env(cfg), label="C15/" + cfg, timeout=2400)
     if thorough:
-        m = ctx.modelcheck("Query", "C15_mc", timeout=900)
+        m = ctx.modelcheck("Query", "C15_mc", timeout=2400)
         if m.violation:
             ctx.notes.append("(M) run C15_mc reported: " + m.violation[:500])
             ctx.inconclusive.append("the specification's own invariants (EvalMatches/AlgebraLaws/TypeOK) failed: " + m.violation[:1500])
